@@ -1,9 +1,9 @@
 package main
 
 import (
-	"strings"
 	"fmt"
 	"math/rand"
+	"strings"
 )
 
 // genReadsCase: a persisted tree without cache; point operations on keys present / absent of
